@@ -244,6 +244,102 @@ def run_generated(tier, rng, tmodel, workdir):
     return mism, stats
 
 
+# ------------------------------------------------------------------------------------------
+# every documented statement / clause macro once, spelled with the short aliases and with the TROMPELOEIL_ prefix
+# under -DTROMPELOEIL_LONG_MACROS (`@` marks a macro name)
+
+FAMILY_PRELUDE = '''%(define)s
+#include <trompeloeil.hpp>
+%(coro_inc)s
+using trompeloeil::_;
+struct I { virtual ~I() = default; virtual int vi(int) = 0; virtual void vc() const = 0; };
+struct S { int x; };
+struct M : trompeloeil::mock_interface<I> {
+  @MAKE_MOCK1(f, int(int));
+  @MAKE_CONST_MOCK1(c, int(int));
+  @MAKE_MOCK0(v, void());
+  @MAKE_MOCK1(sp, void(S));
+  @MAKE_MOCK2(g, int(int, int&));
+  @IMPLEMENT_MOCK1(vi);
+  @IMPLEMENT_CONST_MOCK0(vc);
+  @MAKE_MOCK(gm, auto (int) -> int);
+  @MAKE_CONST_MOCK(gc, auto (int) -> int);
+%(coro_members)s
+};
+struct D { virtual ~D() = default; };
+'''
+
+FAMILY = [
+    ('require', '@REQUIRE_CALL(m, f(@ANY(int))).@WITH(_1 > 0).@SIDE_EFFECT((void)_1).@RETURN(_1).@TIMES(@AT_LEAST(1)).@IN_SEQUENCE(s);'),
+    ('require_lr', '@REQUIRE_CALL(m, g(_, _)).@LR_WITH(_1 > n).@LR_SIDE_EFFECT(n = _1).@LR_SIDE_EFFECT(_2 = n).@LR_RETURN(n).@TIMES(@AT_MOST(2));'),
+    ('require_throw', '@REQUIRE_CALL(m, f(1)).@THROW(1).@TIMES(0, 1);'),
+    ('require_lr_throw', '@REQUIRE_CALL(m, f(1)).@LR_THROW(n).@RT_TIMES(0, 1);'),
+    ('named_require', 'auto e = @NAMED_REQUIRE_CALL(m, c(trompeloeil::gt(1))).@RETURN(0).@TIMES(2); (void)e;'),
+    ('allow', '@ALLOW_CALL(m, v());'),
+    ('named_allow', 'auto e = @NAMED_ALLOW_CALL(m, vi(_)).@RETURN(1); (void)e;'),
+    ('forbid', '@FORBID_CALL(m, f(3));'),
+    ('named_forbid', 'auto e = @NAMED_FORBID_CALL(m, v()); (void)e;'),
+    ('named_forbid_args', 'auto e = @NAMED_FORBID_CALL(m, f(_)); (void)e;'),
+    ('implemented_const', '@REQUIRE_CALL(m, vc());'),
+    ('generic_make', '@REQUIRE_CALL(m, gm(1)).@RETURN(2); @ALLOW_CALL(m, gc(_)).@RETURN(0);'),
+    ('member_is', '@ALLOW_CALL(m, sp(@MEMBER_IS(&S::x, trompeloeil::eq(1))));'),
+    ('require_destruction', 'auto* d = new trompeloeil::deathwatched<D>; { @REQUIRE_DESTRUCTION(*d); delete d; }'),
+    ('named_require_destruction', 'auto* d = new trompeloeil::deathwatched<D>; auto r = @NAMED_REQUIRE_DESTRUCTION(*d).@IN_SEQUENCE(s); delete d; (void)r;'),
+]
+FAMILY_CORO = [
+    ('co_value', '@REQUIRE_CALL(m, cv()).@CO_YIELD(1).@CO_YIELD(2).@CO_RETURN(3);'),
+    ('co_value_lr', '@REQUIRE_CALL(m, cv()).@LR_CO_YIELD(n).@LR_CO_RETURN(n);'),
+    ('co_throw', '@REQUIRE_CALL(m, cv()).@CO_THROW(1);'),
+    ('co_throw_lr', '@REQUIRE_CALL(m, cv()).@LR_CO_THROW(n);'),
+    ('co_void', '@ALLOW_CALL(m, cn()).@CO_RETURN();'),
+]
+
+
+def family_program(long_macros, coro, only=None):
+    pre = 'TROMPELOEIL_' if long_macros else ''
+    src = FAMILY_PRELUDE % dict(define='#define TROMPELOEIL_LONG_MACROS' if long_macros else '',
+                                coro_inc='#include "mini_coro.hpp"' if coro else '',
+                                coro_members='  @MAKE_MOCK0(cv, farm::vtask<int>());\n  @MAKE_MOCK0(cn, farm::ntask());' if coro else '')
+    for name, body in FAMILY + (FAMILY_CORO if coro else []):
+        if only is not None and name != only:
+            continue
+        src += 'void case_%s()\n{\n  M m; trompeloeil::sequence s; int n = 0; (void)n;\n  %s\n}\n' % (name, body)
+    return src.replace('@', pre)
+
+
+def run_family(workdir, levels=('c++14', 'c++17', 'c++20')):
+    """-> (failures [(level, long?, case name or None, program, diagnostics)], number of programs compiled)"""
+    inc = ['-I' + os.path.join(REPO, 'include'), '-I' + os.path.join(VERIF, 'harness', 'farm')]
+    os.makedirs(workdir, exist_ok=True)
+
+    def comp(args):
+        lv, lm, only = args
+        src = family_program(lm, lv == 'c++20', only)
+        path = os.path.join(workdir, 'family_%s_%d_%s.cpp' % (lv, lm, only or 'all'))
+        with open(path, 'w') as f:
+            f.write(src)
+        r = sh(['g++', '-std=' + lv, '-fsyntax-only', '-Wno-unused'] + inc + [path])
+        return args, src, r.returncode, r.stderr
+    jobs = [(lv, lm, None) for lv in levels for lm in (False, True)]
+    fails = []
+    n = 0
+    with cf.ThreadPoolExecutor(NPROC) as ex:
+        res = list(ex.map(comp, jobs))
+        n += len(jobs)
+        for (lv, lm, _), src, rc, err in res:
+            if rc == 0:
+                continue
+            names = [nm for nm, _ in FAMILY + (FAMILY_CORO if lv == 'c++20' else [])]
+            sub = list(ex.map(comp, [(lv, lm, nm) for nm in names]))
+            n += len(names)
+            culprits = [(a[2], s2, e2) for a, s2, rc2, e2 in sub if rc2 != 0]
+            if not culprits:
+                fails.append((lv, lm, None, src, err))
+            for nm, s2, e2 in culprits[:3]:
+                fails.append((lv, lm, nm, s2, e2))
+    return fails, n
+
+
 if __name__ == '__main__':
     import random
     import sys
